@@ -92,6 +92,16 @@ func c05Run(c *C) {
 			refsStr[i] = detExec(t, detPool(p.inc, nil)[i], 0)
 		}
 	}
+	// block by block through ExecuteBlocks, all goroutines passing the SAME names slice (it is only read by the engine)
+	blockNamesOrig := []string{"b1", "b1", "b2", "b1", "inner", "b2", "nosuchblock", "inner", "b1"}
+	sharedNames := append([]string(nil), blockNamesOrig...)
+	refsBlocks := make([]string, npool)
+	for i := 0; i < npool; i++ {
+		if fresh, _, ferr := detCompile(p, opt, onSet, false); ferr == nil {
+			m, berr := fresh.ExecuteBlocks(detPool(p.inc, nil)[i], append([]string(nil), blockNamesOrig...))
+			refsBlocks[i] = fmt.Sprint(m, errStr(berr))
+		}
+	}
 	k := []int{2, 4, 8, 16}[r.Intn(4)]
 	iters := 10 + r.Intn(30)
 	if c.Thorough() {
@@ -143,6 +153,17 @@ func c05Run(c *C) {
 						tpl, op = t, "FromString+execute"
 					}
 				}
+				if gr.Intn(8) == 0 && onSet {
+					m, berr := shared.ExecuteBlocks(pool[ci], sharedNames)
+					if gb := fmt.Sprint(m, errStr(berr)); gb != refsBlocks[ci] {
+						mu.Lock()
+						if len(mm) < 3 {
+							mm = append(mm, mismatch{g, it, ci, "ExecuteBlocks(shared names slice)", execResult{gb, ""}, execResult{refsBlocks[ci], ""}})
+						}
+						mu.Unlock()
+					}
+					continue
+				}
 				got, rawErr := detExecErr(tpl, pool[ci], gr.Intn(4))
 				if rawErr != nil {
 					if why := detErrorInSources(rawErr, p, map[string]string{"<string>": strSrc}); why != "" {
@@ -171,6 +192,10 @@ func c05Run(c *C) {
 	close(start)
 	wg.Wait()
 	c.Eval(total)
+	if fmt.Sprint(sharedNames) != fmt.Sprint(blockNamesOrig) {
+		c.Fail("concurrent-result-differs", D{"main": q(p.main), "operation": "ExecuteBlocks", "why": "the caller's slice of block names was modified", "names_passed": blockNamesOrig, "names_afterwards": sharedNames})
+		return
+	}
 	if len(mm) > 0 {
 		m := mm[0]
 		c.Fail("concurrent-result-differs", D{"main": q(p.main), "files": p.files, "goroutines": k, "iterations": iters, "GOMAXPROCS": procs, "TrimBlocks": opt&1 == 1, "LStripBlocks": opt&2 == 2,
